@@ -274,6 +274,15 @@ Theorem C01_flattened_column_is_selectmany :
 Proof. exact flat_col_linq. Qed.
 Print Assumptions C01_flattened_column_is_selectmany.
 
+(* a LINQ law between the two nested column kinds, on the reference semantics both are proved against: whenever the 2-D column has
+   a value, the SelectMany column over the same collections, filters and body is its concatenation *)
+Theorem C01_selectmany_column_is_concat_of_2d_column :
+  forall (ev : event) (c1 : collref) (g1 : guard) (c2 : collref) (g2 : guard) (body : bexp) (vs : list value),
+  dcol ev (ColVec2 c1 g1 c2 g2 body) = ROk (VVec vs) ->
+  dcol ev (ColFlat c1 g1 c2 g2 body) = ROk (VVec (List.concat (map unvec vs))).
+Proof. exact flat_col_is_concat_of_vec2_col. Qed.
+Print Assumptions C01_selectmany_column_is_concat_of_2d_column.
+
 Definition r2d : row :=
   [("trk_pt", ColVec2 jets (GOne {| p_neg := false; p_op := ">"; p_l := PMeth "pt"; p_r := PInt 30 |}) trks GNone (BPa (PMeth "pt")));
    ("flat", ColFlat jets (GOne {| p_neg := false; p_op := ">"; p_l := PMeth "pt"; p_r := PInt 30 |}) trks GNone (BPa (PMeth "pt")));
